@@ -298,8 +298,17 @@ def main():
         r = prune_round_oracle(rng_p)
         if r:
             fails.append(r)
+    # several epochs against the model (Topo_epochs.v)
+    rng_e = C.make_rng(seed, "C14-epochs")
+    estrs, esumm = [], []
+    for _ in range(150 if tier == "quick" else 1500):
+        ce = T.gen_tcase_epochs(rng_e)
+        _, re_ = T.run_tcase_epochs(ce)
+        estrs.append(T.tncase_coq(ce, re_))
+        esumm.append(dict(T.summary_t(ce), max_iter=int(ce["ops"][0]["iters"])))
+    ecodes, ebad = flow.coq_corr("C14e", "RunTopoN", estrs, shard=50, check_fn="tncheck", extra_imports="From ARTcorr Require Import RunBase RunSam RunTopo.\n")
     codes, bad = flow.coq_corr("C14", "RunTopo", strs, shard=70, check_fn="tcheck", extra_imports="From ARTcorr Require Import RunBase RunSam.\n")
-    for b in bad:
+    for b in bad + ebad:
         v.notes.append("coq shard failed: " + b[-600:])
 
     def extended():
@@ -310,14 +319,14 @@ def main():
             if len(out) >= 3:
                 break
         return out
-    flow.decide(v, "C14", gate_ok, ob, list(zip(codes, summ)), fails, extended)
+    flow.decide(v, "C14", gate_ok, ob, list(zip(codes, summ)) + list(zip(ecodes, esumm)), fails, extended)
     v.cov.update({
         "evaluations": n + n_pr, "distinct_nontrivial": nontriv, "whole_fits_with_every_pruning_round_judged": n_pr,
         "rule": "TopoART over Fuzzy ART (beta in {1,1/2}, beta_lower <= beta incl. 0), tau in {2,3,4,5,8}, phi <= tau, 2-23 samples from small row pools (several pruning rounds, "
                 "rounds removing every category occur), 5 modes, 30% with a table reset function, optional re-fit, then predict; non-trivial = distinct case with >= 2 pruning rounds",
-        "traces_validated_against_impl": sum(1 for x in codes if x == 0),
+        "traces_validated_against_impl": sum(1 for x in codes + ecodes if x == 0), "several_epoch_fits_against_model": len(estrs),
         "distribution": stats, "samples": summ[:1]})
-    v.assumptions = ["training through fit (partial_fit never prunes: known finding recorded under C06)",
+    v.assumptions = ["training through fit, 1-3 epochs (partial_fit never prunes: known finding recorded under C06)",
                      "orphans are re-predicted with the pruned model, as the code does"]
     sys.exit(v.finish())
 
